@@ -48,6 +48,9 @@ def make_param(exe, st, pd, spec):
         o.meta['ptrfields'] = spec.get('ptrfields', {})
         o.meta['len_spec'] = spec.get('len')
         p = Ptr(o, (0,), (), to if not isinstance(to, TVoid) else ect)
+        if spec.get('init') is not None:
+            for k, v in enumerate(spec['init']):
+                st.store(Ptr(o, (k,), (), ect), exe.sem.const(v, ect))
         if spec.get('offset'):
             p = p.with_(idx=(z3.Const(name + '.off', exe.sem.idx_sort()),))
         if spec.get('nullable'):
@@ -76,6 +79,8 @@ def verify_function(tu, fn_name, contracts, int_mode='bv', num_mode='real', pref
     exe.check_arith = check_arith
     exe.drop_dead_ptr_locals = bool(con.get('drop_dead_ptr_locals'))
     exe.ghost_tags = bool(con.get('ghost_tags'))
+    import vlib.flow as _flow
+    _flow.NO_MERGE = bool(con.get('no_merge') or contracts.get('__no_merge__'))
     exe.ob_filter = ob_filter
     if hooks:
         exe.hooks.update(hooks)
